@@ -64,6 +64,11 @@ def verdict (st : St) (env : Spec.Env) (op : Spec.OpReq) (o : Obs) (twinKey : Op
       | .make r => Spec.c11_make env r o
       | .get _ => Spec.c11_get env o
     (if ok then "ok" else "fail:user-handle-stored-or-returned-not-iff-discoverable-under-store-capability", st.twins)
+  else if st.prop = "C09" then
+    let r := match op with
+      | .make r => Spec.c09_make env r o
+      | .get r => Spec.c09_get env r st.store.items o
+    ((match r with | none => "ok" | some f => "fail:" ++ f), st.twins)
   else ("na", st.twins)
 
 def step (st : St) (op : List String) (impl : String) : St × String :=
